@@ -1,3 +1,431 @@
+/-
+C09 — Latency control bounds queued stream data and never wedges the tunnel.
+
+Theorems over the latency part of the Mux model (`Code/Wrap.lean`: `MuxL`, `MuxW.uwrite`,
+`checkFullness`) inside the tunnel world (`Code/Tunnel.lean`).  Helper lemmas: `Lemmas/Latency`.
+-/
+import SshuttleModel.Lemmas.Latency
 import SshuttleModel.Props.C01
+
 namespace Sshuttle.Tunnel
+open Sshuttle.Mux (Frame)
+open Sshuttle.Wrap
+
+abbrev PING := Generated.CMD_PING
+abbrev PONG := Generated.CMD_PONG
+
+/-! ## 1. the gate, the bound, ping-once: one end -/
+
+/-- While `too_full`, `MuxWrapper.uwrite` accepts nothing and queues nothing. -/
+theorem C09_gate_uwrite (w : MuxW) (m : MuxL) (b : Bytes) (h : m.tooFull = true) : w.uwrite m b = (0, m) := by
+  simp [MuxW.uwrite, h]
+
+/-- **Gate.** A whole `Proxy.callback` — whatever the sockets do — queues no TCP_DATA frame while
+the mux is `too_full`, never changes `too_full`, and control frames it queues (EOF, STOP_SENDING)
+carry no payload. -/
+theorem C09_gate (p : ProxyS) (m : MuxL) (e : ESock) (io : CbIo) (p' : ProxyS) (m' : MuxL) (e' : ESock)
+    (h : p.callback m e io = .ok p' m' e') :
+    m'.tooFull = m.tooFull ∧ ∃ extra, m'.out = m.out ++ extra ∧
+      (m.tooFull = true → ∀ fr ∈ extra, fr.cmd ≠ DATA) := by
+  obtain ⟨h1, extra, h2, _, h4, _, _⟩ := lat_callback p m e io p' m' e' h
+  exact ⟨h1, extra, h2, h4⟩
+
+/-- **Overshoot constant.** One `Proxy.callback` adds at most one frame cut (2048 bytes) of stream
+payload to `fullness`; so between two `check_fullness` calls the budget is exceeded by at most
+2048 bytes per callback run, i.e. per ready descriptor of an active connection. -/
+theorem C09_callback_bound (p : ProxyS) (m : MuxL) (e : ESock) (io : CbIo) (p' : ProxyS) (m' : MuxL) (e' : ESock)
+    (h : p.callback m e io = .ok p' m' e') : m'.fullness ≤ m.fullness + Generated.MUX_CUT := by
+  obtain ⟨_, extra, _, h3, _, _, h6⟩ := lat_callback p m e io p' m' e' h
+  omega
+
+/-- `check_fullness`: over budget and not yet paused → exactly one `rttest` PING and pause;
+already paused → nothing more is queued (one request per episode); within budget → nothing. -/
+theorem C09_ping_once (m : MuxL) (b : Nat) :
+    (m.tooFull = true → (m.checkFullness b).out = m.out ∧ (m.checkFullness b).tooFull = true) ∧
+    (m.tooFull = false → m.fullness > b →
+      (m.checkFullness b).out = m.out ++ [⟨0, PING, bytesOfStr Generated.PING_RTT_PAYLOAD⟩] ∧
+      (m.checkFullness b).tooFull = true) ∧
+    (m.fullness ≤ b → m.checkFullness b = m) := by
+  refine ⟨?_, ?_, ?_⟩
+  · intro h; unfold MuxL.checkFullness; split <;> simp [h]
+  · intro h hb; unfold MuxL.checkFullness; simp [hb, h, MuxL.send]
+  · intro hb; unfold MuxL.checkFullness
+    have : ¬ m.fullness > b := by omega
+    simp [this]
+
+/-! ## 2. every request is answered: both ends, every schedule -/
+
+def pingIn (q : List Frame) : Prop := ∃ fr ∈ q, fr.cmd = PING
+def pongIn (q : List Frame) : Prop := ∃ fr ∈ q, fr.cmd = PONG
+
+/-- A paused end has its request or the answer to it still in flight. -/
+def AnsInv (cm sm : MuxL) : Prop :=
+  (cm.tooFull = true → pingIn cm.out ∨ pongIn sm.out) ∧
+  (sm.tooFull = true → pingIn sm.out ∨ pongIn cm.out)
+
+/-- `m'` is `m` with frames appended and `too_full` untouched. -/
+def Grow2 (m m' : MuxL) : Prop := m'.tooFull = m.tooFull ∧ ∃ extra, m'.out = m.out ++ extra
+
+theorem Grow2.refl (m : MuxL) : Grow2 m m := ⟨rfl, [], by simp⟩
+theorem Lat.grow2 {k : Nat} {m m' : MuxL} (h : Lat k m m') : Grow2 m m' := by
+  obtain ⟨h1, extra, h2, _⟩ := h; exact ⟨h1, extra, h2⟩
+theorem grow2_send (m : MuxL) (c cmd : Nat) (d : Bytes) : Grow2 m (m.send c cmd d) := ⟨rfl, _, rfl⟩
+
+theorem pingIn_append {q : List Frame} (x : List Frame) (h : pingIn q) : pingIn (q ++ x) := by
+  obtain ⟨fr, hfr, hc⟩ := h; exact ⟨fr, by simp [hfr], hc⟩
+theorem pongIn_append {q : List Frame} (x : List Frame) (h : pongIn q) : pongIn (q ++ x) := by
+  obtain ⟨fr, hfr, hc⟩ := h; exact ⟨fr, by simp [hfr], hc⟩
+
+theorem AnsInv.growC {cm sm cm' : MuxL} (h : AnsInv cm sm) (g : Grow2 cm cm') : AnsInv cm' sm := by
+  obtain ⟨g1, x, g2⟩ := g
+  refine ⟨fun ht => ?_, fun ht => ?_⟩
+  · rw [g1] at ht; rw [g2]
+    exact (h.1 ht).elim (fun a => Or.inl (pingIn_append x a)) Or.inr
+  · rw [g2]
+    exact (h.2 ht).elim Or.inl (fun a => Or.inr (pongIn_append x a))
+
+theorem AnsInv.symm {cm sm : MuxL} (h : AnsInv cm sm) : AnsInv sm cm := ⟨h.2, h.1⟩
+
+theorem AnsInv.growS {cm sm sm' : MuxL} (h : AnsInv cm sm) (g : Grow2 sm sm') : AnsInv cm sm' :=
+  (h.symm.growC g).symm
+
+/-- What the receiving end's mux looks like after its `got_packet` handled frame `fr`. -/
+def afterFrame (fr : Frame) (m : MuxL) : MuxL :=
+  if fr.cmd == PING then m.send 0 PONG fr.data
+  else if fr.cmd == PONG then { m with tooFull := false, fullness := 0 }
+  else m
+
+/-- **A PING is always answered**, whatever the state of the end that receives it (also when that
+end is itself paused), and a PONG always lifts the pause. -/
+theorem C09_ping_answered (fr : Frame) (m : MuxL) :
+    (fr.cmd = PING → (afterFrame fr m).out = m.out ++ [⟨0, PONG, fr.data⟩]) ∧
+    (fr.cmd = PONG → (afterFrame fr m).tooFull = false ∧ (afterFrame fr m).fullness = 0) := by
+  have hne : PING ≠ PONG := by decide
+  constructor
+  · intro h; simp [afterFrame, h, MuxL.send]
+  · intro h
+    have hne' : ¬ (PONG = PING) := fun h' => hne h'.symm
+    unfold afterFrame
+    rw [if_neg (by rw [h]; simpa using hne'), if_pos (by rw [h]; simp)]
+    exact ⟨rfl, rfl⟩
+
+theorem AnsInv.deliver {src dst : MuxL} (h : AnsInv src dst) (fr : Frame) (rest : List Frame)
+    (ho : src.out = fr :: rest) : AnsInv { src with out := rest } (afterFrame fr dst) := by
+  have hne : PING ≠ PONG := by decide
+  unfold afterFrame
+  by_cases h1 : fr.cmd = PING
+  · -- the request reaches the peer: the answer is queued
+    simp only [h1, beq_self_eq_true, ↓reduceIte]
+    refine ⟨fun _ => Or.inr ⟨⟨0, PONG, fr.data⟩, by simp [MuxL.send], rfl⟩, fun ht => ?_⟩
+    have ht' : dst.tooFull = true := ht
+    rcases h.2 ht' with ⟨x, hx, hc⟩ | ⟨x, hx, hc⟩
+    · exact Or.inl ⟨x, by simp [MuxL.send, hx], hc⟩
+    · right
+      rw [ho] at hx
+      rcases List.mem_cons.mp hx with hx | hx
+      · subst hx; rw [h1] at hc; exact absurd hc hne
+      · exact ⟨x, hx, hc⟩
+  · by_cases h2 : fr.cmd = PONG
+    · -- the answer arrives: the pause is lifted
+      have a1 : ¬ ((fr.cmd == PING) = true) := by simpa using h1
+      have a2 : (fr.cmd == PONG) = true := by simpa using h2
+      rw [if_neg a1, if_pos a2]
+      refine ⟨fun ht => ?_, fun ht => by simp at ht⟩
+      have ht' : src.tooFull = true := ht
+      rcases h.1 ht' with ⟨x, hx, hc⟩ | ⟨x, hx, hc⟩
+      · left
+        rw [ho] at hx
+        rcases List.mem_cons.mp hx with hx | hx
+        · subst hx; exact absurd hc h1
+        · exact ⟨x, hx, hc⟩
+      · exact Or.inr ⟨x, hx, hc⟩
+    · have a1 : ¬ ((fr.cmd == PING) = true) := by simpa using h1
+      have a2 : ¬ ((fr.cmd == PONG) = true) := by simpa using h2
+      rw [if_neg a1, if_neg a2]
+      refine ⟨fun ht => ?_, fun ht => ?_⟩
+      · have ht' : src.tooFull = true := ht
+        rcases h.1 ht' with ⟨x, hx, hc⟩ | hp
+        · left
+          rw [ho] at hx
+          rcases List.mem_cons.mp hx with hx | hx
+          · subst hx; exact absurd hc h1
+          · exact ⟨x, hx, hc⟩
+        · exact Or.inr hp
+      · rcases h.2 ht with hp | ⟨x, hx, hc⟩
+        · exact Or.inl hp
+        · right
+          rw [ho] at hx
+          rcases List.mem_cons.mp hx with hx | hx
+          · subst hx; exact absurd hc h2
+          · exact ⟨x, hx, hc⟩
+
+theorem AnsInv.check {cm sm : MuxL} (h : AnsInv cm sm) (b : Nat) : AnsInv (cm.checkFullness b) sm := by
+  unfold MuxL.checkFullness
+  split
+  · by_cases ht : cm.tooFull = true
+    · simp only [ht, ↓reduceIte]
+      have e : ({ cm with tooFull := true } : MuxL) = cm := by cases cm; simp_all
+      rw [e]; exact h
+    · have ht' : cm.tooFull = false := by simpa using ht
+      simp only [ht', Bool.false_eq_true, ↓reduceIte]
+      refine ⟨fun _ => Or.inl ⟨⟨0, PING, bytesOfStr Generated.PING_RTT_PAYLOAD⟩, by simp [MuxL.send], rfl⟩, fun hs => ?_⟩
+      exact (h.2 hs).elim Or.inl (fun a => Or.inr (by simpa [MuxL.send] using pongIn_append _ a))
+  · exact h
+
+/-! ### the muxes along a world step -/
+
+theorem connectS_mux (w : World) (fr : Frame) (conn : ConnRes) :
+    (w.connectS fr conn).cm = w.cm ∧ (w.connectS fr conn).sm = w.sm := by
+  unfold World.connectS
+  split
+  · exact ⟨rfl, rfl⟩
+  · split
+    · exact ⟨rfl, rfl⟩
+    · split
+      · exact ⟨rfl, rfl⟩
+      · split <;> exact ⟨rfl, rfl⟩
+
+theorem dispatchAt_mux (w : World) (e : End) (fr : Frame) :
+    (w.dispatchAt e fr).cm = w.cm ∧ (w.dispatchAt e fr).sm = w.sm := by
+  unfold World.dispatchAt; split <;> exact ⟨rfl, rfl⟩
+
+theorem deliverS_mux (w : World) (conn : ConnRes) :
+    ((w.deliverS conn).cm = w.cm ∧ (w.deliverS conn).sm = w.sm ∧ w.cm.out = []) ∨
+    ∃ fr rest, w.cm.out = fr :: rest ∧ (w.deliverS conn).cm = { w.cm with out := rest } ∧
+      (w.deliverS conn).sm = afterFrame fr w.sm := by
+  unfold World.deliverS
+  cases ho : w.cm.out with
+  | nil => left; exact ⟨rfl, rfl, rfl⟩
+  | cons fr rest =>
+    right
+    refine ⟨fr, rest, rfl, ?_⟩
+    simp only [afterFrame]
+    by_cases h1 : (fr.cmd == Generated.CMD_PING) = true
+    · rw [if_pos h1, if_pos h1]; exact ⟨rfl, rfl⟩
+    · rw [if_neg h1, if_neg h1]
+      by_cases h2 : (fr.cmd == Generated.CMD_PONG) = true
+      · rw [if_pos h2, if_pos h2]; exact ⟨rfl, rfl⟩
+      · rw [if_neg h2, if_neg h2]
+        split
+        · have := connectS_mux { w with cm := { w.cm with out := rest } } fr conn
+          exact ⟨this.1, this.2⟩
+        · split
+          · exact ⟨rfl, rfl⟩
+          · have := dispatchAt_mux { w with cm := { w.cm with out := rest } } .server fr
+            exact ⟨this.1, this.2⟩
+
+theorem deliverC_mux (w : World) :
+    (w.deliverC.cm = w.cm ∧ w.deliverC.sm = w.sm ∧ w.sm.out = []) ∨
+    ∃ fr rest, w.sm.out = fr :: rest ∧ w.deliverC.sm = { w.sm with out := rest } ∧
+      w.deliverC.cm = afterFrame fr w.cm := by
+  unfold World.deliverC
+  cases ho : w.sm.out with
+  | nil => left; exact ⟨rfl, rfl, rfl⟩
+  | cons fr rest =>
+    right
+    refine ⟨fr, rest, rfl, ?_⟩
+    simp only [afterFrame]
+    by_cases h1 : (fr.cmd == Generated.CMD_PING) = true
+    · rw [if_pos h1, if_pos h1]; exact ⟨rfl, rfl⟩
+    · rw [if_neg h1, if_neg h1]
+      by_cases h2 : (fr.cmd == Generated.CMD_PONG) = true
+      · rw [if_pos h2, if_pos h2]; exact ⟨rfl, rfl⟩
+      · rw [if_neg h2, if_neg h2]
+        split
+        · split <;> exact ⟨rfl, rfl⟩
+        · split
+          · exact ⟨rfl, rfl⟩
+          · have := dispatchAt_mux { w with sm := { w.sm with out := rest } } .client fr
+            exact ⟨this.2, this.1⟩
+
+/-- How the two muxes move in one raw step. -/
+inductive MuxMove (w w' : World) (st : Step) : Prop
+  | growC (h : Grow2 w.cm w'.cm) (hs : w'.sm = w.sm)
+  | growS (h : Grow2 w.sm w'.sm) (hc : w'.cm = w.cm)
+  | toS (fr : Frame) (rest : List Frame) (ho : w.cm.out = fr :: rest)
+      (hc : w'.cm = { w.cm with out := rest }) (hs : w'.sm = afterFrame fr w.sm)
+  | toC (fr : Frame) (rest : List Frame) (ho : w.sm.out = fr :: rest)
+      (hs : w'.sm = { w.sm with out := rest }) (hc : w'.cm = afterFrame fr w.cm)
+  | checkC (hst : st = .checkFull .client) (hc : w'.cm = w.cm.checkFullness w.bufsize) (hs : w'.sm = w.sm)
+  | checkS (hst : st = .checkFull .server) (hs : w'.sm = w.sm.checkFullness w.bufsize) (hc : w'.cm = w.cm)
+
+theorem stepRaw_move (w : World) (st : Step) : MuxMove w (w.stepRaw st) st := by
+  have same : ∀ (w' : World) (st : Step), w'.cm = w.cm → w'.sm = w.sm → MuxMove w w' st :=
+    fun w' _ h1 h2 => .growC (by rw [h1]; exact Grow2.refl _) h2
+  unfold World.stepRaw
+  cases st with
+  | accept =>
+    simp only [World.accept]
+    split
+    · exact same _ _ rfl rfl
+    · exact .growC (grow2_send _ _ _ _) rfl
+  | cb e i io =>
+    cases e
+    · simp only [World.cbC]
+      split
+      · split
+        · split
+          next p' m' e' hcb => exact .growC (lat_callback _ _ _ _ _ _ _ hcb).grow2 rfl
+          · exact same _ _ rfl rfl
+        · exact same _ _ rfl rfl
+      · exact same _ _ rfl rfl
+    · simp only [World.cbS]
+      split
+      · split
+        · split
+          next p' m' e' hcb => exact .growS (lat_callback _ _ _ _ _ _ _ hcb).grow2 rfl
+          · exact same _ _ rfl rfl
+        · exact same _ _ rfl rfl
+      · exact same _ _ rfl rfl
+  | pre e i =>
+    cases e
+    · simp only [World.preC]
+      split
+      · split
+        · exact .growC (lat_preSelect _ _).grow2 rfl
+        · exact same _ _ rfl rfl
+      · exact same _ _ rfl rfl
+    · simp only [World.preS]
+      split
+      · split
+        · exact .growS (lat_preSelect _ _).grow2 rfl
+        · exact same _ _ rfl rfl
+      · exact same _ _ rfl rfl
+  | deliver e conn =>
+    cases e
+    · simp only
+      rcases deliverC_mux w with ⟨h1, h2, _⟩ | ⟨fr, rest, ho, hs, hc⟩
+      · exact same _ _ h1 h2
+      · exact .toC fr rest ho hs hc
+    · simp only
+      rcases deliverS_mux w conn with ⟨h1, h2, _⟩ | ⟨fr, rest, ho, hc, hs⟩
+      · exact same _ _ h1 h2
+      · exact .toS fr rest ho hc hs
+  | removeDead e => cases e <;> exact same _ _ rfl rfl
+  | checkFull e =>
+    cases e
+    · exact .checkC rfl rfl rfl
+    · exact .checkS rfl rfl rfl
+  | foreign e fr =>
+    cases e
+    · exact .growC (grow2_send _ _ _ _) rfl
+    · exact .growS (grow2_send _ _ _ _) rfl
+  | appWrite i b => exact same _ _ rfl rfl
+  | appEof i => exact same _ _ rfl rfl
+  | dstWrite i b => exact same _ _ rfl rfl
+  | dstEof i => exact same _ _ rfl rfl
+
+theorem step_move (w : World) (st : Step) :
+    ((w.step st).cm = w.cm ∧ (w.step st).sm = w.sm) ∨ MuxMove w (w.step st) st := by
+  unfold World.step
+  split
+  · left; exact ⟨rfl, rfl⟩
+  · split
+    · left; exact ⟨rfl, rfl⟩
+    · right; exact stepRaw_move w st
+
+theorem AnsInv.move {w w' : World} {st : Step} (h : AnsInv w.cm w.sm) (m : MuxMove w w' st) : AnsInv w'.cm w'.sm := by
+  cases m with
+  | growC g hs => rw [hs]; exact h.growC g
+  | growS g hc => rw [hc]; exact h.growS g
+  | toS fr rest ho hc hs => rw [hc, hs]; exact h.deliver fr rest ho
+  | toC fr rest ho hs hc => rw [hc, hs]; exact (h.symm.deliver fr rest ho).symm
+  | checkC _ hc hs => rw [hc, hs]; exact h.check _
+  | checkS _ hs hc => rw [hc, hs]; exact (h.symm.check _).symm
+
+theorem AnsInv.run {w : World} (h : AnsInv w.cm w.sm) (steps : List Step) :
+    AnsInv (w.run steps).cm (w.run steps).sm := by
+  induction steps generalizing w with
+  | nil => exact h
+  | cons st rest ih =>
+    simp only [World.run, List.foldl_cons]
+    apply ih
+    rcases step_move w st with ⟨h1, h2⟩ | m
+    · rw [h1, h2]; exact h
+    · exact h.move m
+
+/-- **C09 answered.**  From a world in which no end is paused, after EVERY schedule (any
+interleaving of callbacks, deliveries delayed arbitrarily, `check_fullness` at any moments, any
+buffer size, any number of flows, frames of other flow kinds): an end that is `too_full` has its
+`rttest` PING still queued towards the peer, or a PONG is queued towards it.  Every request is
+answered; no pause is orphaned. -/
+theorem C09_answered (w0 : World) (h0 : w0.cm.tooFull = false ∧ w0.sm.tooFull = false) (steps : List Step) :
+    AnsInv (w0.run steps).cm (w0.run steps).sm := by
+  apply AnsInv.run
+  exact ⟨fun h => (by rw [h0.1] at h; cases h), fun h => (by rw [h0.2] at h; cases h)⟩
+
+/-- Corollary: once both frame queues are drained (everything queued has reached the peer), no
+end is paused — transfers always resume. -/
+theorem C09_drained_not_full (w0 : World) (h0 : w0.cm.tooFull = false ∧ w0.sm.tooFull = false)
+    (steps : List Step) (hc : (w0.run steps).cm.out = []) (hs : (w0.run steps).sm.out = []) :
+    (w0.run steps).cm.tooFull = false ∧ (w0.run steps).sm.tooFull = false := by
+  have h := C09_answered w0 h0 steps
+  have no1 : ∀ q : List Frame, q = [] → ¬ pingIn q ∧ ¬ pongIn q := by
+    intro q hq; subst hq
+    exact ⟨fun ⟨_, h, _⟩ => (by cases h), fun ⟨_, h, _⟩ => (by cases h)⟩
+  constructor
+  · cases ht : (w0.run steps).cm.tooFull with
+    | false => rfl
+    | true =>
+      rcases h.1 ht with a | a
+      · exact absurd a (no1 _ hc).1
+      · exact absurd a (no1 _ hs).2
+  · cases ht : (w0.run steps).sm.tooFull with
+    | false => rfl
+    | true =>
+      rcases h.2 ht with a | a
+      · exact absurd a (no1 _ hs).1
+      · exact absurd a (no1 _ hc).2
+
+/-! ## 3. latency control off -/
+
+def NoCheck : Step → Prop
+  | .checkFull _ => False
+  | _ => True
+
+theorem afterFrame_tooFull (fr : Frame) (m : MuxL) (h : m.tooFull = false) : (afterFrame fr m).tooFull = false := by
+  unfold afterFrame
+  split
+  · exact h
+  · split
+    · rfl
+    · exact h
+
+/-- **C09 off.**  With latency control disabled (`check_fullness` is never called), `too_full` is
+false in every reachable state, so `uwrite` never refuses for that reason: no pauses. -/
+theorem C09_off (w0 : World) (h0 : w0.cm.tooFull = false ∧ w0.sm.tooFull = false) (steps : List Step)
+    (hn : ∀ st ∈ steps, NoCheck st) :
+    (w0.run steps).cm.tooFull = false ∧ (w0.run steps).sm.tooFull = false := by
+  induction steps generalizing w0 with
+  | nil => exact h0
+  | cons st rest ih =>
+    simp only [World.run, List.foldl_cons]
+    apply ih _ _ (fun s hs => hn s (by simp [hs]))
+    have hst' := hn st (by simp)
+    rcases step_move w0 st with ⟨h1, h2⟩ | m
+    · rw [h1, h2]; exact h0
+    · cases m with
+      | growC g hs => rw [hs, g.1]; exact h0
+      | growS g hc => rw [hc, g.1]; exact h0
+      | toS fr r ho hc hs => rw [hc, hs]; exact ⟨h0.1, afterFrame_tooFull fr _ h0.2⟩
+      | toC fr r ho hs hc => rw [hc, hs]; exact ⟨afterFrame_tooFull fr _ h0.1, h0.2⟩
+      | checkC hst _ _ => rw [hst] at hst'; exact absurd hst' (by simp [NoCheck])
+      | checkS hst _ _ => rw [hst] at hst'; exact absurd hst' (by simp [NoCheck])
+
+
+/-! ## 4. non-vacuity: a run in which an end pauses, is refused, is answered and resumes -/
+
+def demoSteps : List Step :=
+  [.accept, .deliver .server .ok, .appWrite 0 (List.replicate 300 7),
+   .cb .client 0 { recv := .data 200 }, .checkFull .client,          -- over a 100-byte budget: PING, paused
+   .cb .client 0 { recv := .data 200 }]                               -- gate: nothing queued
+
+def demoW0 : World := { bufsize := 100 }
+
+example :
+    (demoW0.run demoSteps).cm.tooFull = true ∧ pingIn (demoW0.run demoSteps).cm.out ∧
+    (demoW0.run demoSteps).cm.fullness = 206 ∧
+    ((demoW0.run (demoSteps ++ [.deliver .server .ok, .deliver .server .ok, .deliver .client .ok])).cm.tooFull = false) := by
+  refine ⟨by decide +kernel, ⟨⟨0, PING, bytesOfStr Generated.PING_RTT_PAYLOAD⟩, by decide +kernel, rfl⟩, by decide +kernel, by decide +kernel⟩
+
 end Sshuttle.Tunnel
